@@ -43,3 +43,40 @@ def c11(ctx):
         extra_link="", exhaustive=True, min_nontrivial={"quick": 1000000, "thorough": 1000000})
     return P.finish(ctx, "exploration", cov, cov.pop("_assumptions", None) or
                     ["own RFC 4648 codec in vlib.h is the reference", "ASan/UBSan detect out-of-bounds access"], mn)
+
+
+# ---------------------------------------------------------------- C02 / C03
+harness_job("C02_matrix", extra_link="")
+std_replayer("C02", "C02_matrix", extra_link="")
+REPLAYERS["C03"] = lambda ctx, path: P.harness_replay_fn(ck.build_harness("C02_matrix", "asan", extra_link=""), "C03", ["--prop", "C03"])(path)
+
+MATRIX_ASSUME = ["reference signer/verifier in vkeys.h (raw OpenSSL EVP) decides cryptographic validity",
+                 "keys are imported through the public JWK loader; errored items are not passed to setkey",
+                 "GnuTLS: no positive assertion for ES256K / secp256k1 (unsupported there)"]
+
+
+@P.check("C02")
+def c02(ctx):
+    """algorithm pinning: exhaustive (explicit alg x key x key alg attr x header alg x route x signature) matrix"""
+    rule = ("exhaustive product: explicit alg (none, 14 algorithms, INVAL) x key config (absent, or key type x alg attribute in "
+            "{none, each alg of its family, alg of another family, wrong-size EC alg, unknown string}, plus crafted oct keys whose leading bytes "
+            "mimic an EVP_PKEY type id) x header alg variant (14 names, none, case variants, padded, unknown, empty, missing, non-string) x route "
+            "(setkey, callback selects key+alg / key / alg) x signature (absent, garbage, HMAC under empty / public-PEM / raw-public key, "
+            "attacker's own key pair, real key) x provider; builder: explicit alg x key config x route x private/public. "
+            "Non-trivial = at least two of {explicit alg, key alg attr, header alg} set and the signature computable by an attacker or the real key (verify), "
+            "any keyed cell (builder); cells are distinct by construction.")
+    cov, mn = P.generic_harness_check(ctx, "C02_matrix", rule, MATRIX_ASSUME, extra_link="", exhaustive=True,
+                                      min_nontrivial={"quick": 50000, "thorough": 50000})
+    return P.finish(ctx, "exploration", cov, MATRIX_ASSUME, mn)
+
+
+@P.check("C03")
+def c03(ctx):
+    """unsigned tokens: configurations x token shapes, two-sided for key-less checkers"""
+    rule = ("exhaustive product of checker/builder configurations (no key; key with/without alg attr; explicit alg; callback leaving alg default / "
+            "setting key / alg / both) x header alg variants (none/None/NONE/known/unknown/missing/non-string) x signature (absent, garbage, real) "
+            "x provider, plus token shapes with 2-5+ segments and third segment in {empty, 1-2 chars, valid HS/ES signature, junk, '='}. "
+            "Non-trivial = cell with a key, or empty third segment, or an alg-none variant; cells distinct by construction, shapes by token hash.")
+    cov, mn = P.generic_harness_check(ctx, "C02_matrix", rule, MATRIX_ASSUME, extra_link="", extra_args=["--prop", "C03"], exhaustive=True,
+                                      min_nontrivial={"quick": 5000, "thorough": 5000})
+    return P.finish(ctx, "exploration", cov, MATRIX_ASSUME, mn)
